@@ -52,10 +52,10 @@ theorem drain_keep (dfn : Nat) : ∀ (ns : List Node) (cc cc' : List (Nat × V))
         exact hk
 
 section
-variable {c : Bool} {inst : Instance} {dom : List Nat}
+variable {c : Bool} {inst : Instance} {dom : List Nat} {fx : Bool}
 variable {s0 st s1 : St} {g : Nat} {old cur : V} {m : Min} {new : List Node}
 
-theorem After.new_index (A : After c inst dom s0 st s1 g old cur m new) {n : Node} (hn : n ∈ new) :
+theorem After.new_index (A : After c inst dom fx s0 st s1 g old cur m new) {n : Node} (hn : n ∈ new) :
     ∃ i, s0.graph.length < i ∧ s1.graph[i]? = some n := by
   obtain ⟨j, hj⟩ := List.getElem?_of_mem hn
   refine ⟨s0.graph.length + (j + 1), by omega, ?_⟩
@@ -68,7 +68,7 @@ theorem After.new_index (A : After c inst dom s0 st s1 g old cur m new) {n : Nod
 def drained (g : Nat) (cur : V) (m : Min) (new : List Node) : List Node := (⟨g, cur, none, m⟩ : Node) :: new
 
 /-- a drained node, seen in `s1`: its index is at or above the head's -/
-theorem After.drained_index (A : After c inst dom s0 st s1 g old cur m new) {n : Node}
+theorem After.drained_index (A : After c inst dom fx s0 st s1 g old cur m new) {n : Node}
     (hn : n ∈ drained g cur m new) :
     ∃ i n', s0.graph.length ≤ i ∧ s1.graph[i]? = some n' ∧ n'.goal = n.goal := by
   cases List.mem_cons.mp hn with
@@ -78,9 +78,9 @@ theorem After.drained_index (A : After c inst dom s0 st s1 g old cur m new) {n :
     exact ⟨i, n, Nat.le_of_lt hi, hn', rfl⟩
 
 /-- the answers of the drained nodes are correct -/
-theorem After.drained_corr (A : After c inst dom s0 st s1 g old cur m new)
+theorem After.drained_corr (A : After c inst dom fx s0 st s1 g old cur m new)
     (hfl : ¬ flagAt s1.stack s0.stack.length ∨ old = cur) (hm : MinLe (some s0.graph.length) m) :
-    ∀ n : Node, n ∈ drained g cur m new → Corr c inst n.goal n.solution := by
+    ∀ n : Node, n ∈ drained g cur m new → n.solution ≠ .ambig → Corr c inst n.goal n.solution := by
   -- the optimistic ones justify each other
   have hS : ∀ k, (∃ n : Node, n ∈ drained g cur m new ∧ n.goal = k ∧ n.solution = top c) →
       J c inst (fun j => (∃ n : Node, n ∈ drained g cur m new ∧ n.goal = j ∧ n.solution = top c) ∨
@@ -114,39 +114,59 @@ theorem After.drained_corr (A : After c inst dom s0 st s1 g old cur m new)
     | inl e =>
       rw [e] at hgo hv
       subst hgo
-      cases A.fact with
-      | inl h => exact J.mono (fun j hj => hw hm hj) h.2
-      | inr h => rw [h.1] at hv; exact absurd hv.symm (top_ne_bot c)
+      rcases A.fact with h | h | h
+      · exact J.mono (fun j hj => hw hm hj) h.2
+      · rw [h.1] at hv; exact absurd hv.symm (top_ne_bot c)
+      · rw [h.1] at hv; exact absurd hv.symm (top_ne_ambig c)
     | inr e =>
       obtain ⟨i, _, hn1⟩ := A.new_index e
       rw [← hgo]
       exact J.mono (fun j hj => hw (hm.trans (A.hnew n e).2) hj) (A.i1.just i n hn1 (A.hnew n e).1 hv)
   have htgt := Tgt.coind (c := c) (inst := inst) _ hS
-  intro n hn
-  have hval : n.solution = top c ∨ n.solution = bot c := by
+  intro n hn hna
+  have hval : n.solution = top c ∨ n.solution = bot c ∨ n.solution = .ambig := by
     cases List.mem_cons.mp hn with
     | inl e => rw [e]; exact A.cur_val
     | inr e =>
       obtain ⟨i, _, hn1⟩ := A.new_index e
       exact A.i1.val i n hn1
-  cases hval with
-  | inl h => exact Or.inl ⟨h, htgt n.goal ⟨n, hn, rfl, h⟩⟩
-  | inr h =>
-    refine Or.inr ⟨h, ?_⟩
+  rcases hval with h | h | h
+  · exact Or.inl ⟨h, htgt n.goal ⟨n, hn, rfl, h⟩⟩
+  · refine Or.inr ⟨h, ?_⟩
     cases List.mem_cons.mp hn with
     | inl e => rw [e] at h ⊢; exact A.fact.not_tgt h
     | inr e =>
       obtain ⟨i, _, hn1⟩ := A.new_index e
       exact A.i1.approx i n hn1 h
+  · exact absurd h hna
 
-theorem After.finish_cache (A : After c inst dom s0 st s1 g old cur m new) {s6 : St}
+theorem After.finish_cache (A : After c inst dom fx s0 st s1 g old cur m new) {s6 : St}
     (P : Popped s0 s1 { s6 with cache := s1.cache })
     (hfl : ¬ flagAt s1.stack s0.stack.length ∨ old = cur) (hm : MinLe (some s0.graph.length) m)
     (hg6 : s6.graph = s0.graph) (cc1 cc6 : List (Nat × V)) (hc1 : s1.cache = some cc1)
     (hc6 : s6.cache = some cc6)
-    (hdr : drainToCache s0.graph.length (drained g cur m new) cc1 = .ok cc6) :
-    Inv c inst dom s6 ∧ (∀ lb, Step c inst s0 s6 lb) ∧ Corr c inst g cur := by
-  have hcorr := A.drained_corr hfl hm
+    (hdr : drainToCache s0.graph.length (drained g cur m new) cc1 = .ok cc6)
+    (hni : s1.interrupted = false) :
+    Inv c inst dom fx s6 ∧ (∀ lb, Step c inst s0 s6 lb) ∧ Corr c inst g cur := by
+  have hna : ∀ n : Node, n ∈ drained g cur m new → n.solution ≠ .ambig := by
+    intro n hn ha
+    have : s1.interrupted = true := by
+      cases List.mem_cons.mp hn with
+      | inl e =>
+        rw [e] at ha
+        have e' : cur = .ambig := ha
+        have hf := A.fact
+        rw [e'] at hf
+        exact hf.ambig
+      | inr e =>
+        obtain ⟨i, _, hn1⟩ := A.new_index e
+        exact A.i1.amb i n hn1 ha
+    rw [hni] at this
+    cases this
+  have hcorr := fun n hn => A.drained_corr hfl hm n hn (hna n hn)
+  have h6i : s6.interrupted = s1.interrupted := P.interrupted
+  have h6o : s6.oracle = s1.oracle := P.oracle
+  have h6d : s6.oracleDefault = s1.oracleDefault := P.oracleDefault
   have hext : StackExt s0.stack s6.stack := A.popExt (s5 := { s6 with cache := s1.cache }) P
   have hflag : ∀ d, flagAt s0.stack d → flagAt s6.stack d := fun d hd => hext.flag hd
   -- a drained goal is not a goal of the old graph, nor in the old cache
@@ -171,13 +191,12 @@ theorem After.finish_cache (A : After c inst dom s0 st s1 g old cur m new) {s6 :
     refine ⟨cc6, hc6, drain_keep _ _ _ _ hdr k v hk ?_⟩
     intro n hn hgo
     exact hfresh n hn v (by rw [hgo]; exact ⟨cc1, hc1, hk⟩)
-  have hinv : Inv c inst dom s6 := by
-    refine ⟨?_, ?_, A.popCo (s5 := { s6 with cache := s1.cache }) P, ?_, ?_, ?_, ?_, ?_, ?_, ?_, ?_, ?_⟩
-    · have h1 := P.oracle
-      have h2 := P.oracleDefault
-      have h3 := P.interrupted
-      simp only at h1 h2 h3
-      rw [h1, h2, h3]; exact A.i1.quiet
+  have hinv : Inv c inst dom fx s6 := by
+    refine ⟨fixes_of_eq A.i1.fixes h6o h6d h6i, ?_, ?_, A.popCo (s5 := { s6 with cache := s1.cache }) P, ?_, ?_, ?_, ?_, ?_, ?_, ?_, ?_, ?_⟩
+    · intro i n hn ha
+      rw [hg6] at hn
+      rw [h6i]
+      exact A.i1.amb i n (A.g0 hn) ha
     · intro k v h
       cases hsub k v h with
       | inl h => exact A.i1.cacheOK k v h
@@ -209,7 +228,13 @@ theorem After.finish_cache (A : After c inst dom s0 st s1 g old cur m new) {s6 :
       exact J.mono (fun j hj => hj.from0 ⟨[], by rw [hg6, List.append_nil]⟩ hflag) (A.L.i0.just i n hn hd htop)
   refine ⟨hinv, fun lb => ⟨⟨[], by rw [hg6, List.append_nil], fun n hn => by cases hn⟩, hext,
     fun k v h => hkeep k v (A.cacheExt k v h), ?_, ?_,
-    by rw [hc6, ← A.L.cacheMode, ← A.step.cacheMode, hc1]; rfl⟩, hcorr _ (List.mem_cons_self ..)⟩
+    by rw [hc6, ← A.L.cacheMode, ← A.step.cacheMode, hc1]; rfl,
+    fun e => by rw [h6i]; exact A.step.intr (A.L.intr e),
+    fun q => by
+      obtain ⟨q1, i1⟩ := A.L.quiet q
+      obtain ⟨q2, i2⟩ := A.step.quiet q1
+      exact ⟨⟨by rw [h6o]; exact q2.1, by rw [h6d]; exact q2.2⟩, fun e => by rw [h6i]; exact i2 (i1 e)⟩⟩,
+    hcorr _ (List.mem_cons_self ..)⟩
   · intro k v h
     cases h with
     | inl h => exact Or.inl (hkeep k v (A.cacheExt k v h))
@@ -238,16 +263,19 @@ theorem After.finish_cache (A : After c inst dom s0 st s1 g old cur m new) {s6 :
 
 /-- caching disabled (or, generally, the cache left alone): the nodes from `dfn` on are dropped
     (`rollback_to(dfn)`); the answer of the head is correct all the same -/
-theorem After.finish_discard (A : After c inst dom s0 st s1 g old cur m new) {s6 : St}
-    (P : Popped s0 s1 s6) (hfl : ¬ flagAt s1.stack s0.stack.length ∨ old = cur)
+theorem After.finish_discard (A : After c inst dom fx s0 st s1 g old cur m new) {s6 : St}
+    (P : Popped s0 s1 s6) (hfl : cur ≠ .ambig → ¬ flagAt s1.stack s0.stack.length ∨ old = cur)
     (hm : MinLe (some s0.graph.length) m) (hg6 : s6.graph = s0.graph) :
-    Inv c inst dom s6 ∧ (∀ lb, Step c inst s0 s6 lb) ∧ Corr c inst g cur := by
-  have hcorr := A.drained_corr hfl hm
+    Inv c inst dom fx s6 ∧ (∀ lb, Step c inst s0 s6 lb) ∧ (cur ≠ .ambig → Corr c inst g cur) := by
   have hext : StackExt s0.stack s6.stack := A.popExt P
   have hflag : ∀ d, flagAt s0.stack d → flagAt s6.stack d := fun d hd => hext.flag hd
-  have hinv : Inv c inst dom s6 := by
-    refine ⟨?_, fun k v h => A.i1.cacheOK k v (P.inCache.mp h), A.popCo P, ?_, ?_, ?_, ?_, ?_, ?_, ?_, ?_, ?_⟩
-    · rw [P.oracle, P.oracleDefault, P.interrupted]; exact A.i1.quiet
+  have hinv : Inv c inst dom fx s6 := by
+    refine ⟨fixes_of_eq A.i1.fixes P.oracle P.oracleDefault P.interrupted, ?_,
+      fun k v h => A.i1.cacheOK k v (P.inCache.mp h), A.popCo P, ?_, ?_, ?_, ?_, ?_, ?_, ?_, ?_, ?_⟩
+    · intro i n hn ha
+      rw [hg6] at hn
+      rw [P.interrupted]
+      exact A.i1.amb i n (A.g0 hn) ha
     · rw [hg6]; exact A.L.i0.nodup
     · intro i n hn v hc
       rw [hg6] at hn
@@ -266,7 +294,14 @@ theorem After.finish_discard (A : After c inst dom s0 st s1 g old cur m new) {s6
       exact J.mono (fun j hj => hj.from0 ⟨[], by rw [hg6, List.append_nil]⟩ hflag) (A.L.i0.just i n hn hd htop)
   refine ⟨hinv, fun lb => ⟨⟨[], by rw [hg6, List.append_nil], fun n hn => by cases hn⟩, hext,
     fun k v h => P.inCache.mpr (A.cacheExt k v h), ?_, ?_,
-    by rw [P.cache, A.step.cacheMode, A.L.cacheMode]⟩, hcorr _ (List.mem_cons_self ..)⟩
+    by rw [P.cache, A.step.cacheMode, A.L.cacheMode],
+    fun e => by rw [P.interrupted]; exact A.step.intr (A.L.intr e),
+    fun q => by
+      obtain ⟨q1, i1⟩ := A.L.quiet q
+      obtain ⟨q2, i2⟩ := A.step.quiet q1
+      exact ⟨⟨by rw [P.oracle]; exact q2.1, by rw [P.oracleDefault]; exact q2.2⟩,
+        fun e => by rw [P.interrupted]; exact i2 (i1 e)⟩⟩,
+    fun hne => A.drained_corr (hfl hne) hm _ (List.mem_cons_self ..) hne⟩
   · intro k v h
     cases h with
     | inl h => exact Or.inl (P.inCache.mpr (A.cacheExt k v h))
